@@ -28,6 +28,8 @@ def replay(pid, path):
     obj = json.load(open(path))
     print("stored case: %s" % obj.get("description", "")[:400])
     vlib.build_harness()
+    if "grant_sequence" in obj.get("case", {}):
+        return replay_schedule(pid, path, obj)
     now = vlib.harness("one-case", {"case": path})
     print("re-executed on the current tree: " + json.dumps(now)[:1500])
     tag = "replay_%d" % os.getpid()
@@ -54,6 +56,40 @@ def replay(pid, path):
     import shutil
     shutil.rmtree(os.path.join(vlib.WORK, tag), ignore_errors=True)
     if bad:
+        print("VIOLATION property=%s replay=%s" % (pid, path))
+        return 1
+    return 0
+
+
+def replay_schedule(pid, path, obj):
+    """C17: force the stored grant sequence on the real locks again and let TLC judge the outcome"""
+    import os
+    import vlib
+    now = vlib.harness("sched-replay", {"case": path})
+    print("re-executed on the current tree: " + json.dumps(now)[:1500])
+    o = now["outcome"]
+    n = len(now["g0"]["out"])
+    pois = o["final"] == "poisoned"
+    tag = "replay_%d" % os.getpid()
+    d = os.path.join(vlib.WORK, tag)
+    os.makedirs(d, exist_ok=True)
+    tr = os.path.join(d, "ev.ndjson")
+    with open(tr, "w") as f:
+        f.write(json.dumps({"ev": "exec", "g0": now["g0"], "prog": now["prog"], "rets": o["rets"], "poisoned": pois, "deadlock": o["deadlock"],
+                            "final": {"out": [[]] * n, "inn": [[]] * n} if pois else o["final"]}) + "\n")
+    cfg = vlib.cfg_text({"Nodes": set(range(1, n + 1)), "Vals": {1}, "Directed": vlib.DIRECTED[now["flavour"]]}, spec="TSpec",
+                        invariants=["Consumed"], postcondition="AllConsumed")
+    r = vlib.run_tlc("TraceLocks", cfg, tag + "/tlc", workers=1, timeout=600, env={"TRACE": tr}, deque=True)
+    verd = dict(vlib.parse_tla_tuple_prints(r.prints, "REJECT"))
+    print("TLC verdict now: %s" % (verd.get(1) or "accepted"))
+    import shutil
+    shutil.rmtree(d, ignore_errors=True)
+    if verd.get(1):
+        from vlib import load_known
+        sig = obj.get("signature")
+        if any(k["property"] == pid and k["signature"] == sig for k in load_known().get("findings", [])):
+            print("KNOWN-FINDING: property=%s %s" % (pid, sig))
+            return 0
         print("VIOLATION property=%s replay=%s" % (pid, path))
         return 1
     return 0
